@@ -15,6 +15,7 @@ func init() {
 	families["cron-count"] = runCronCount
 	families["cron-desc"] = runCronDesc
 	families["cron-tz"] = runCronTz
+	families["cron-combo"] = runCronCombo
 	families["dur-tok"] = runDurTok
 	families["dur-struct"] = runDurStruct
 	families["stamp"] = runStamp
@@ -189,6 +190,15 @@ func sepOf(tok string) string {
 	panic(harnessBug("unknown separator " + tok))
 }
 
+func runCronCombo(r *runner) {
+	s := r.sh
+	spec := "0 0 " + s.str("dom") + " " + s.str("month") + " " + s.str("dow")
+	if s.str("parser") == "sec" {
+		spec = "0 " + spec
+	}
+	parseAndWalk(r, cronParse(s.str("parser")), spec)
+}
+
 func runCronTz(r *runner) {
 	s := r.sh
 	spec := s.str("key") + s.str("zone") + sepOf(s.str("sep")) + s.str("tail")
@@ -279,6 +289,9 @@ func mutateComp(comps []string, op string, at int) []string {
 func runDurStruct(r *runner) {
 	s := r.sh
 	comps := []string{"R5", "/", "P", "1Y", "2M", "1W", "3D", "T", "4H", "5M", "6S"}
+	if s.str("rep") == "norep" {
+		comps = comps[2:]
+	}
 	comps = mutateComp(comps, s.str("op"), s.num("at"))
 	comps = mutateComp(comps, s.str("op2"), s.num("at2"))
 	timeCalls(r, strings.Join(comps, ""))
